@@ -34,7 +34,7 @@ def exc_factory(name):
     }[name]()
 
 
-QUICK_CLASSES = ['Private', 'CastError', 'StopIteration', 'UniqueKeyError']
+QUICK_CLASSES = ['Private', 'CastError', 'CastErrorBare', 'StopIteration', 'UniqueKeyError']
 ALL_CLASSES = ['Private', 'ValueError', 'KeyError', 'AssertionError', 'StopIteration', 'CastError', 'CastErrorBare',
                'TSValidationError', 'UniqueKeyError', 'DFValidationError', 'OSError']
 
